@@ -271,6 +271,14 @@ func (b *BudgetInputSet) addWalletInput(utxo *lnwallet.Utxo) error {
 // A set may need wallet inputs when it has a required output or its total
 // value cannot cover its total budget.
 func (b *BudgetInputSet) NeedWalletInput() bool {
+	return b.budgetShortfall() > 0
+}
+
+// budgetShortfall returns the amount that's needed to pay the budgets of the
+// set but cannot be taken from its inputs. A positive value means more wallet
+// inputs are needed, and a negative value is the amount left for the change
+// output once the full budget is paid as fees.
+func (b *BudgetInputSet) budgetShortfall() btcutil.Amount {
 	var (
 		// budgetNeeded is the amount that needs to be covered from
 		// other inputs. We start at the value of the extra budget,
@@ -317,7 +325,7 @@ func (b *BudgetInputSet) NeedWalletInput() bool {
 
 	// If we don't have enough extra budget to borrow, we need wallet
 	// inputs.
-	return budgetBorrowable < budgetNeeded
+	return budgetNeeded - budgetBorrowable
 }
 
 // hasNormalInput return a bool to indicate whether there exists an input that
@@ -367,17 +375,39 @@ func (b *BudgetInputSet) AddWalletInputs(wallet Wallet) error {
 		return utxos[i].Value < utxos[j].Value
 	})
 
-	// Add wallet inputs to the set until the specified budget is covered.
+	// When the whole budget is paid as fees, what's left of the wallet
+	// inputs goes to the change output. If that's below the dust limit it
+	// cannot be created, and the amount is added to the fees instead, which
+	// then exceed the budget and the tx is refused. We don't know the change
+	// script here so we use the largest dust limit of the wallet's scripts.
+	changeReserve := lnwallet.DustLimitForSize(input.P2WSHSize)
+
+	// covered is true once the wallet inputs cover the budget.
+	covered := false
+
+	// Add wallet inputs to the set until the specified budget is covered
+	// and a non-dust change output can be made.
 	for _, utxo := range utxos {
 		err := b.addWalletInput(utxo)
 		if err != nil {
 			return err
 		}
 
+		shortfall := b.budgetShortfall()
+
 		// Return if we've reached the minimum output amount.
-		if !b.NeedWalletInput() {
+		if shortfall+changeReserve <= 0 {
 			return nil
 		}
+
+		covered = shortfall <= 0
+	}
+
+	// The budget is covered, but there are no more wallet inputs to make
+	// room for the change output, which only matters when the fees reach
+	// the budget.
+	if covered {
+		return nil
 	}
 
 	// Exit if there are no inputs can contribute to the fees.
